@@ -9,6 +9,7 @@ CONSTANTS
   RNG = "local"
   AddrBytes = "fill"
   NetBase = "masked"
+  DerivedMode = "once"
 INVARIANTS Contained WellFormed RandPortFromSubnet Pure
 POSTCONDITION Post
 CHECK_DEADLOCK FALSE
